@@ -23,8 +23,12 @@ def leVal : Bytes → Nat
   | b :: bs => b.toNat + 256 * leVal bs
 
 /-- `Reader::read` of exactly `n` bytes (`UnexpectedEnd` otherwise) -/
-def takeN (n : Nat) (bs : Bytes) : Option (Bytes × Bytes) :=
-  if n ≤ bs.length then some (bs.take n, bs.drop n) else none
+def takeGo : Nat → Bytes → Bytes → Option (Bytes × Bytes)
+  | 0, bs, acc => some (acc.reverse, bs)
+  | _ + 1, [], _ => none
+  | n + 1, b :: bs, acc => takeGo n bs (b :: acc)
+
+def takeN (n : Nat) (bs : Bytes) : Option (Bytes × Bytes) := takeGo n bs []
 
 /-- `varint_encode_u16/u32/u64/usize`: ≤ 250 one byte; else marker 251/252/253 + 2/4/8 bytes LE.
     (The argument is below 2^16 / 2^32 / 2^64 for the respective type; `usize` is encoded as `u64`.) -/
